@@ -25,6 +25,7 @@ type Loaded struct {
 	errorIface     *types.Interface
 	rtypePtr       types.Type
 	fnvType        types.Type
+	fmtStateType   types.Type
 	poolNewField   int
 	loadTime       time.Duration
 	harnessFiles   []string
@@ -152,6 +153,7 @@ func Load(tags string) (*Loaded, error) {
 	ld.errorIface = types.Universe.Lookup("error").Type().Underlying().(*types.Interface)
 	ld.rtypePtr = types.NewPointer(lookup("reflect", "rtype"))
 	ld.fnvType = types.NewPointer(lookup("hash/fnv", "sum64a"))
+	ld.fmtStateType = types.NewPointer(lookup("fmt", "pp"))
 	pool := lookup("sync", "Pool").Underlying().(*types.Struct)
 	for i := 0; i < pool.NumFields(); i++ {
 		if pool.Field(i).Name() == "New" {
@@ -179,6 +181,8 @@ func (ex *Exec) resetPath(prefix []decision) {
 	ex.inited = map[*ssa.Package]bool{}
 	ex.pools = map[*V][]V{}
 	ex.slotIDs = nil
+	ex.gobTab = nil
+	ex.csvTab = nil
 	ex.undo = nil
 	ex.ifcDepth = 0
 	ex.bufID = 0
